@@ -525,3 +525,4 @@ mut('c19-linear-bias-not-reset', ['C19'], 'Linear.reset_parameters no longer fil
 mut('c19-bn-affine-reset-skipped', ['C19'], 'BatchNorm calls reset_parameters only when track_running_stats is set (gamma / beta stay uninitialised otherwise)', [(LY, "            # Initialize parameters\n            self.reset_parameters()", "            # Initialize parameters\n            if self.track_running_stats: self.reset_parameters()")], rules=['C19.UNINIT'])
 mut('c05-squeeze-all-or-nothing', ['C05'], 'squeeze with a tuple of dims squeezes only if ALL listed dims have size 1', [(K, "        axis = tuple(ax for ax in axis if a.shape[ax] == 1)", "        axis = tuple(axis) if all(a.shape[ax] == 1 for ax in axis) else ()")], rules=['C05.SQUEEZE'])
 mut('c05-twin-squeeze-loop', ['C05'], 'squeeze filters the dims with an explicit loop', [(K, "        axis = tuple(ax for ax in axis if a.shape[ax] == 1)", "        kept = []\n        for ax in axis:\n            if a.shape[ax] == 1:\n                kept.append(ax)\n        axis = tuple(kept)")], expect='silent')
+mut('c12-parameters-cached', ['C12'], 'parameters() caches its result on the module (stale after a nested child changes)', [(M, "        return unique_params\n", "        self.__dict__['_param_cache'] = unique_params\n        return unique_params\n")], rules=['C12.ONCE'])
